@@ -545,6 +545,7 @@ func (in *Interp) runPath(fn *ssa.Function, prefix []int) (kind, msg string, vio
 	in.clockN = 0
 	in.lastNow = nil
 	in.lastSec, in.lastNsec = nil, nil
+	in.tmpDirs = 0
 	in.expectPanic = false
 	in.ghost = map[string]Value{}
 	in.initStored = map[*ssa.Global]bool{}
